@@ -29,7 +29,7 @@ func checkC09(c *Ctx) {
 	c.Rule("R9.6", "EncodeEntry/Clone never store through the receiver", 3)
 
 	// ---------------- R9.1 ----------------
-	c.Rule("R9.7", "BufferedWriteSyncer.Stop: atomic test-and-set, single close, wait with the mutex released (no double-close panic, no deadlock)", 4)
+	c.Rule("R9.7", "BufferedWriteSyncer.Stop: atomic test-and-set, single close, wait with the mutex released (no double-close panic, no deadlock)", 1)
 	c12Rules(c, "R9.1", "", "", "R9.7", "")
 	if ol := c.Named("go.uber.org/zap/zaptest/observer", "ObservedLogs"); c.Anchor("R9.1", "observer.ObservedLogs", ol != nil) {
 		guardedBy(c, "R9.1", ol, map[string]bool{"logs": true}, "mu", nil, func(Access) string { return "" })
